@@ -477,7 +477,7 @@ func ruleMarker(p *Prog, r *Report) {
 }
 
 func init() {
-	register("C03", "Numeric order of components and direction of release markers, read off each Compare's abstract decision table: (R-NUMPARSE) every leading numeric capture group of the version pattern feeds an int/[]int field through strconv/big parsing; (R-CHAIN) with all other terms equal a smaller component gives -1, earlier components outrank later ones, and elements of []int components order numerically at their position; (R-MARKER) for every marker spelling the statement names that the ecosystem's pattern/rank table knows (pre: alpha a beta b pre rc c cr m milestone snapshot dev; post: p post pl patch sp r rev cvs svn git hg) a version with the marker against the same version without it gives -1 / +1, later fields free; '-' pre-release text (SemVer family) makes a version older. Token-stream markers (gem, debian/rpm '~', alpm) and accepted spellings are not decided.", ruleNumeric, ruleMarker)
+	register("C03", "Numeric order of components and direction of release markers, read off each Compare's abstract decision table: (R-NUMPARSE) every leading numeric capture group of the version pattern feeds an int/[]int field through strconv/big parsing; (R-CHAIN) with all other terms equal a smaller component gives -1, earlier components outrank later ones, and elements of []int components order numerically at their position; (R-MARKER) for every marker spelling the statement names that the ecosystem's pattern/rank table knows (pre: alpha a beta b pre rc c cr m milestone snapshot dev; post: p post pl patch sp r rev cvs svn git hg) a version with the marker against the same version without it gives -1 / +1, later fields free; '-' pre-release text (SemVer family) makes a version older. (R-ACCEPT-LANG) plain dotted numerics are in the language of the constructor's whole-input patterns (regular-language inclusion on the product automaton); for debian, rpm, alpine, gem and maven the scanner, tokenizer and position-table obligations of C10-C14 that concern numeric components and release markers are taken over. Token-stream markers of alpm/conan/cran and debian/rpm '~' are not decided.", ruleNumeric, ruleMarker)
 }
 
 // ---- R-KINDGUARD: a plain dotted-numeric version is never classified as another kind --------------
